@@ -447,6 +447,14 @@ def run(ctx):
         # database: dialect persisted, reopen, routing
         if i % 3 == 0:
             check_database(ctx, path, file_case("database", lines, specs, name), specs, res)
+            # force_gff=True overrides the routing (not part of the property; correspondence only): a GTF-format file is
+            # then imported with GFF3 semantics - the model's Create.route must say the same
+            cfgf = dbside.Cfg(strategy="create_unique", force_gff=True)
+            dbf, repf = dbside.py_create(path, cfgf)
+            cmds.append(dbside.cmd_create(["##gff-version 3"] + lines, cfgf)); exp.append(repf)
+            tags.append(("create_db(force_gff=True)", repr(lines)))
+            if dbf is not None:
+                cmds.append("dump"); exp.append(("DUMP", dbside.dump(dbf))); tags.append(("tables (force_gff=True)", repr(lines)))
 
     # mixtures inside the window of a real file: trailing semicolon on some lines ----------------------------------
     for i in range(250 if not ctx.thorough else 2500):
@@ -521,6 +529,14 @@ def run(ctx):
                         sorted(map(str, a["features"])) == sorted(map(str, b["features"])) and a["relations"] == b["relations"])
                 if not same:
                     res.corr_disagreements.append((comp, inp[:600], m[:500], e[:500]))
+                continue
+            if isinstance(e, tuple):
+                a, b = dbside.parse_dump(m), dbside.parse_dump(e[1])
+                same = ("error" not in a and "error" not in b and
+                        sorted(map(str, a["features"])) == sorted(map(str, b["features"])) and
+                        sorted(a["relations"]) == sorted(b["relations"]) and a["dialect"] == b["dialect"])
+                if not same:
+                    res.corr_disagreements.append((comp, inp[:600], m[:500], e[1][:500]))
                 continue
             if comp.startswith("DataIterator.dialect"):
                 m = " ".join(m.split(" ")[:2])
